@@ -28,14 +28,13 @@ MUTANTS = {
                                                        "                        valid_keyids.insert(&signature.keyid);\n                        valid += 1;\n                    }\n                }\n            }\n        }\n\n        ensure!(\n            valid >= u64::from(role_keys.threshold),\n            error::SignatureThresholdSnafu {\n                role: RoleType::Targets,", 1)]),
  "m02-root-verify-no-dedupe": (["C01"], [(V, "                        if valid_keyids.insert(&signature.keyid) {\n                            valid += 1;\n                        }\n                    }\n                }\n            }\n        }\n\n        ensure!(\n            valid >= u64::from(role_keys.threshold),\n            error::SignatureThresholdSnafu {\n                role: T::TYPE,",
                                                   "                        valid_keyids.insert(&signature.keyid);\n                        valid += 1;\n                    }\n                }\n            }\n        }\n\n        ensure!(\n            valid >= u64::from(role_keys.threshold),\n            error::SignatureThresholdSnafu {\n                role: T::TYPE,", 1)]),
- "m03-root-verify-any-table-key": (["C01", "C02"], [(V, "        for signature in &role.signatures {\n            if role_keys.keyids.contains(&signature.keyid) {\n                if let Some(key) = self.keys.get(&signature.keyid) {\n                    if key.verify(&data, &signature.sig) {\n                        // Ignore duplicate keyids.\n                        if valid_keyids.insert(&signature.keyid) {\n                            valid += 1;\n                        }\n                    }\n                }\n            }\n        }\n\n        ensure!(\n            valid >= u64::from(role_keys.threshold),\n            error::SignatureThresholdSnafu {\n                role: T::TYPE,",
+ "m03-root-verify-any-table-key": (["C01"], [(V, "        for signature in &role.signatures {\n            if role_keys.keyids.contains(&signature.keyid) {\n                if let Some(key) = self.keys.get(&signature.keyid) {\n                    if key.verify(&data, &signature.sig) {\n                        // Ignore duplicate keyids.\n                        if valid_keyids.insert(&signature.keyid) {\n                            valid += 1;\n                        }\n                    }\n                }\n            }\n        }\n\n        ensure!(\n            valid >= u64::from(role_keys.threshold),\n            error::SignatureThresholdSnafu {\n                role: T::TYPE,",
                                                       "        for signature in &role.signatures {\n            if !role_keys.keyids.is_empty() {\n                if let Some(key) = self.keys.get(&signature.keyid) {\n                    if key.verify(&data, &signature.sig) {\n                        // Ignore duplicate keyids.\n                        if valid_keyids.insert(&signature.keyid) {\n                            valid += 1;\n                        }\n                    }\n                }\n            }\n        }\n\n        ensure!(\n            valid >= u64::from(role_keys.threshold),\n            error::SignatureThresholdSnafu {\n                role: T::TYPE,", 1)]),
  "m04-snapshot-signature-not-checked": (["C01", "C12"], [(L, "    root.signed\n        .verify_role(&snapshot)\n        .context(error::VerifyMetadataSnafu {\n            role: RoleType::Snapshot,\n        })?;\n", "", 1)]),
  "m05-delegated-signature-not-checked": (["C01", "C12"], [(L, "        delegation\n            .verify_role(&role, &delegated_role.name)\n            .context(error::VerifyMetadataSnafu {\n                role: RoleType::Targets,\n            })?;\n", "", 1)]),
  "m06-new-root-own-keys-not-checked": (["C01", "C02"], [(L, "                new_root\n                    .signed\n                    .verify_role(&new_root)\n                    .context(error::VerifyMetadataSnafu {\n                        role: RoleType::Root,\n                    })?;\n", "", 1)]),
  "m07-new-root-old-keys-not-checked": (["C01", "C02"], [(L, "                root.signed\n                    .verify_role(&new_root)\n                    .context(error::VerifyMetadataSnafu {\n                        role: RoleType::Root,\n                    })?;\n", "", 1)]),
- "m08-root-version-may-go-down": (["C02"], [(L, "                ensure!(\n                    root.signed.version <= new_root.signed.version,", "                ensure!(\n                    new_root.signed.version.get() > 0,", 1),
-                                            (L, "                if root.signed.version == new_root.signed.version {\n                    break;\n                }", "                if root.signed.version >= new_root.signed.version {\n                    break;\n                }", 1)]),
+ "m08-root-lower-version-adopted": (["C02"], [(L, "                ensure!(\n                    root.signed.version <= new_root.signed.version,", "                ensure!(\n                    new_root.signed.version.get() > 0,", 1)]),
  "m09-shipped-root-not-self-verified": (["C01", "C02"], [(L, "    root.signed\n        .verify_role(&root)\n        .context(error::VerifyTrustedMetadataSnafu)?;\n", "", 1)]),
  "m10-timestamp-rollback-check-off-by-one": (["C03"], [(L, "                old_timestamp.signed.version <= timestamp.signed.version,", "                old_timestamp.signed.version.get() <= timestamp.signed.version.get() + 1,", 1)]),
  "m11-snapshot-listed-targets-not-compared": (["C03"], [(L, "                ensure!(\n                    old_targets_meta.version <= targets_meta.version,", "                ensure!(\n                    old_targets_meta.version.get() > 0 || old_targets_meta.version <= targets_meta.version,", 1)]),
@@ -108,7 +107,10 @@ def main():
         print("refusing: /repo working tree is not clean")
         return 2
     for name, (checks, edits) in MUTANTS.items():
-        if sel and not any(name.startswith(s) for s in sel):
+        if sel and not any(name.startswith(s) for s in sel if s != "--todo"):
+            if sel != ["--todo"]:
+                continue
+        if "--todo" in sel and results.get(name, {}).get("expected") == checks and "caught_by" in results.get(name, {}):
             continue
         ok = True
         for f, old, new, cnt in edits:
